@@ -140,6 +140,10 @@ Fresh == \A o \in alive : \A k \in valid[o] : \A v \in TrueDep[k] : snap[o][k][v
 \* its declared dependencies, an auxiliary output for those of the method it was cached with.
 Registered == \A o \in alive : \A k \in present[o] : \A v \in TrueDep[k] : k \in deps[grp[o]][v]
 
+\* a key is registered for all the variables it really depends on at once (registration adds it for all declared
+\* dependencies of the method being called, which cover them)
+DepsClosed == \A g \in Grps : \A k \in Keys : \A v \in Vars : k \in deps[g][v] => \A u \in TrueDep[k] : k \in deps[g][u]
+
 TypeOK ==
   /\ alive \subseteq Objs
   /\ DOMAIN ver = Objs /\ \A o \in Objs : DOMAIN ver[o] = Vars
@@ -154,6 +158,7 @@ IndInv ==
   /\ \A o \in Objs : valid[o] \subseteq present[o]
   /\ \A o \in Objs : \A v \in Vars : ver[o][v] < clock
   /\ Registered
+  /\ DepsClosed
   /\ Fresh
 
 \* an ARBITRARY state satisfying the invariant (Gen: Apalache's bounded value generator; the bounds cover the
